@@ -306,6 +306,34 @@ impl Op {
     }
 }
 
+/// The order in which the builder methods are called. Class selectors and region policies
+/// REPLACE an earlier call of the same kind, filters and exclusions accumulate; the criteria in
+/// force at `take` are therefore the last selector, the last policy and every filter - whatever
+/// the order, and whatever was selected while a filter ran.
+#[derive(Clone, Copy, Debug, PartialEq, Eq, PartialOrd, Ord)]
+enum CallOrder {
+    /// class, policy, exclusions, quota
+    Canonical,
+    /// exclusions, class, policy, quota
+    ExclFirst,
+    /// the OTHER class selector and a different policy, exclusions, then the real class and policy
+    Decoys,
+}
+
+impl CallOrder {
+    const ALL: &'static [CallOrder] = &[CallOrder::Canonical, CallOrder::ExclFirst, CallOrder::Decoys];
+    fn name(self) -> &'static str {
+        match self {
+            CallOrder::Canonical => "class,policy,excl",
+            CallOrder::ExclFirst => "excl,class,policy",
+            CallOrder::Decoys => "decoy-class,decoy-policy,excl,class,policy",
+        }
+    }
+    fn parse(s: &str) -> Option<Self> {
+        Self::ALL.iter().copied().find(|o| o.name() == s)
+    }
+}
+
 #[derive(Clone, Copy, Debug)]
 struct Query {
     source: Source,
@@ -314,6 +342,7 @@ struct Query {
     policy: Policy,
     quota: Quota,
     op: Op,
+    order: CallOrder,
 }
 
 impl Query {
@@ -342,23 +371,22 @@ impl Query {
                 all.filter(|p| p.id() != drop_id).expect("sub source is used only when P >= 2")
             }
         };
-        let mut b = source_set.to_builder();
-        b = match self.class {
+        let by_id = |id: u32| -> &Processor {
+            all.processors().iter().find(|p| p.id() == id).expect("id is in the hardware")
+        };
+        let class = |b: ProcessorSetBuilder, c: ClassSel| match c {
             ClassSel::Any => b,
             ClassSel::Perf => b.performance_processors_only(),
             ClassSel::Eff => b.efficiency_processors_only(),
         };
-        b = match self.policy {
+        let policy = |b: ProcessorSetBuilder, p: Policy| match p {
             Policy::Any => b,
             Policy::RequireSame => b.same_memory_region(),
             Policy::RequireDifferent => b.different_memory_regions(),
             Policy::PreferSame => b.prefer_same_memory_region(),
             Policy::PreferDifferent => b.prefer_different_memory_regions(),
         };
-        let by_id = |id: u32| -> &Processor {
-            all.processors().iter().find(|p| p.id() == id).expect("id is in the hardware")
-        };
-        b = match self.excl {
+        let excl = |b: ProcessorSetBuilder| match self.excl {
             Excl::ExceptMask(m) => {
                 let removed: Vec<&Processor> = (0..topo.buckets.len())
                     .filter(|b| m & (1 << b) != 0)
@@ -378,6 +406,42 @@ impl Query {
                 }
             }
         };
+        let mut b = source_set.to_builder();
+        match self.order {
+            CallOrder::Canonical => {
+                b = class(b, self.class);
+                b = policy(b, self.policy);
+                b = excl(b);
+            }
+            CallOrder::ExclFirst => {
+                b = excl(b);
+                b = class(b, self.class);
+                b = policy(b, self.policy);
+            }
+            CallOrder::Decoys => {
+                b = class(
+                    b,
+                    match self.class {
+                        ClassSel::Any => ClassSel::Any,
+                        ClassSel::Perf => ClassSel::Eff,
+                        ClassSel::Eff => ClassSel::Perf,
+                    },
+                );
+                b = policy(
+                    b,
+                    match self.policy {
+                        Policy::Any => Policy::Any,
+                        Policy::RequireSame => Policy::RequireDifferent,
+                        Policy::RequireDifferent => Policy::RequireSame,
+                        Policy::PreferSame => Policy::PreferDifferent,
+                        Policy::PreferDifferent => Policy::PreferSame,
+                    },
+                );
+                b = excl(b);
+                b = class(b, self.class);
+                b = policy(b, self.policy);
+            }
+        }
         if self.quota.enforced() {
             b = b.enforce_resource_quota();
         }
@@ -395,6 +459,7 @@ impl Query {
             "policy": self.policy.name(),
             "quota": self.quota.name(),
             "op": self.op.to_json(),
+            "call_order": self.order.name(),
             "script": script,
             "model_candidate_ids": orc.cand.iter().map(|&i| topo.procs[i].id).collect::<Vec<_>>(),
             "model_quota_limit": orc.limit,
@@ -415,6 +480,7 @@ impl Query {
             policy: Policy::parse(v.get("policy")?.as_str()?)?,
             quota: Quota::parse(v.get("quota")?.as_str()?)?,
             op: Op::parse(v.get("op")?)?,
+            order: v.get("call_order").and_then(Value::as_str).map_or(Some(CallOrder::Canonical), CallOrder::parse)?,
         };
         let script =
             v.get("script")?.as_array()?.iter().map(|w| w.as_u64().map(|w| w as u32)).collect::<Option<_>>()?;
@@ -812,8 +878,12 @@ fn sweep(topo: &Topo, policy: Policy, devs: usize, grid: &[u32], st: &mut Stats)
                 for &class in ClassSel::ALL {
                     let mut ops: Vec<Op> = (1..=topo.total() + 1).map(Op::Take).collect();
                     ops.push(Op::TakeAll);
-                    for op in ops {
-                        let q = Query { source, excl, class, policy, quota, op };
+                    for (op, &order) in ops.iter().flat_map(|&op| CallOrder::ALL.iter().map(move |o| (op, o))) {
+                        // without a selector or policy to replace, the decoy order is ExclFirst
+                        if order == CallOrder::Decoys && class == ClassSel::Any && policy == Policy::Any {
+                            continue;
+                        }
+                        let q = Query { source, excl, class, policy, quota, op, order };
                         let orc = Oracle::new(topo, &q);
                         let nontrivial = !orc.cand.is_empty();
                         let builder = q.builder(topo, &hw);
@@ -1046,9 +1116,9 @@ fn main() {
         counts.insert(key.clone(), json!(total));
         for (_, w) in ws.into_iter().take(3) {
             let summary = format!(
-                "{} | regions(perf,eff)={} source={} excl={} class={} policy={} quota={} op={} script={} -> {} ({total} failing executions in total)",
+                "{} | regions(perf,eff)={} source={} excl={} class={} policy={} quota={} calls={} op={} script={} -> {} ({total} failing executions in total)",
                 w["detail"].as_str().unwrap_or(""),
-                w["regions_perf_eff"], w["source"], w["excl"], w["class"], w["policy"], w["quota"], w["op"], w["script"],
+                w["regions_perf_eff"], w["source"], w["excl"], w["class"], w["policy"], w["quota"], w["call_order"], w["op"], w["script"],
                 w["observed"],
             );
             c.violation(&key, &summary, w);
@@ -1063,13 +1133,14 @@ fn main() {
          count pair; sparse processor/region ids; regions interleaved in the hardware list) of each pass {} x 2 source sets \
          (all processors, sub-ProcessorSet) x exclusions (except() of the first processor of every subset of the (region,class) \
          buckets, filter() dropping a whole region, filter(id%3)+except()) x 3 class selectors x 5 region policies x 6 quota \
-         variants (unset/1.0 not enforced, 0.5/1.0/2.5/default enforced) x take(n) for every n in 1..=P+1 and take_all() x random \
+         variants (unset/1.0 not enforced, 0.5/1.0/2.5/default enforced) x 3 builder call orders (class,policy,excl | excl,class,policy | \
+         the other class selector and a different policy first, then excl, then the real class and policy - selectors and policies replace, filters accumulate) x take(n) for every n in 1..=P+1 and take_all() x random \
          draws scripted through the cfg(folo_verif) rng seam: the all-zero script, then every script with at most D non-zero \
          32-bit words (D = nonzero_draws_up_to of the pass) at any draw position, each from the pass's word grid, verified at \
          start-up against rand's real mapping to reach every outcome of random_range(0..k), k<=8, and every permutation of \
          shuffle() of <= regions_up_to elements. Each execution is judged by a brute-force oracle over all subsets of the model's candidate set. \
          evaluations = executions of the real take/take_all; distinct_nontrivial = number of distinct (query, returned set) \
-         pairs over queries whose candidate set is non-empty (a query = topology+source+exclusion+class+policy+quota+op).",
+         pairs over queries whose candidate set is non-empty (a query = topology+source+exclusion+class+policy+quota+call order+op).",
         Value::Array(pass_desc.clone()),
     );
     c.extra.insert("passes".into(), Value::Array(pass_desc));
